@@ -63,6 +63,9 @@ pub fn e1_jobs(prop: &str, tier: Tier) -> (Vec<E1Job>, usize) {
     let pb = |d| E1Job { profile: Profile::B { access: b_acc.clone(), times: vec![3, 5], unnamed: true, dup: true, pairs: true }, depth: d, alt_map: false };
     let pbs = |d| E1Job { profile: Profile::B { access: b_small.clone(), times: vec![3], unnamed: false, dup: true, pairs: true }, depth: d, alt_map: false };
     let pc = |d| E1Job { profile: Profile::C { times: vec![1, 5] }, depth: d, alt_map: false };
+    let pc3 = |d| E1Job { profile: Profile::C3 { times: vec![1, 5] }, depth: d, alt_map: false };
+    let paj = |d| E1Job { profile: Profile::AJ { ballast: 3, times: vec![1] }, depth: d, alt_map: false };
+    let paj5 = |d| E1Job { profile: Profile::AJ { ballast: 5, times: vec![1, 2] }, depth: d, alt_map: false };
     let pd = |d| E1Job { profile: Profile::D { access: d_acc.clone() }, depth: d, alt_map: false };
     let pe = |m, rich, d| E1Job { profile: Profile::E { inner_max: m, rich }, depth: d, alt_map: false };
     let pf = |d| E1Job { profile: Profile::F, depth: d, alt_map: false };
@@ -70,18 +73,18 @@ pub fn e1_jobs(prop: &str, tier: Tier) -> (Vec<E1Job>, usize) {
     let pill = |d| E1Job { profile: Profile::Ill, depth: d, alt_map: false };
     let fam = if q { 64 } else { 400 };
     let jobs = match prop {
-        "C01" | "C05" => if q { vec![pa(3), E1Job { profile: Profile::A { times: vec![1, 3, 5] }, depth: 3, alt_map: true }, pbs(4), pc(6), pd(4), pe(1, true, 2), pa15(4)] } else { vec![pa(4), pb(4), pc(8), pd(6), pe(2, true, 2), pe(1, false, 3)] },
+        "C01" | "C05" => if q { vec![pa(3), E1Job { profile: Profile::A { times: vec![1, 3, 5] }, depth: 3, alt_map: true }, pbs(4), pc(6), pd(4), pe(1, true, 2), paj(4), pa15(4)] } else { vec![pa(4), pb(4), pc(8), pc3(9), paj(5), paj5(4), pd(6), pe(2, true, 2), pe(1, false, 3)] },
         "C02" => if q { vec![pb(3), pbs(4), pd(5)] } else { vec![pb(4), pbs(5), pd(6)] },
         "C03" => if q { vec![pd(5), pf(4), pe(1, true, 2)] } else { vec![pd(7), pf(5), pe(2, true, 2)] },
-        "C04" => if q { vec![pa1(3), pbs(3), pc(6), pd(4), pe(1, true, 2), pf(4), E1Job { profile: Profile::S, depth: 2, alt_map: false }] } else { vec![pa(3), pbs(4), pc(8), pd(5), pe(2, true, 2), pf(5)] },
+        "C04" => if q { vec![pa1(3), pbs(3), pc(6), paj(4), pd(4), pe(1, true, 2), pf(4), E1Job { profile: Profile::S, depth: 2, alt_map: false }, pc3(8)] } else { vec![pa(3), pbs(4), pc(8), pd(5), pe(2, true, 2), pf(5)] },
         "C07" => if q { vec![pe(1, true, 2), pe(2, true, 1), pe(1, false, 3)] } else { vec![pe(2, true, 2), pe(1, true, 3)] },
-        "C10" => if q { vec![pa(3), pb(3), pbs(4), pc(6), pd(5), pa15(4)] } else { vec![pa(3), pa1(4), pb(4), pbs(5), pc(8), pd(7)] },
+        "C10" => if q { vec![pa(3), pb(3), pbs(4), pc(6), pd(5), paj(4), pa15(4)] } else { vec![pa(3), pa1(4), pb(4), pbs(5), pc(8), pd(7)] },
         "C12" => if q { vec![pf(4)] } else { vec![pf(6)] },
         "C13" => if q { vec![pf(4), pe(1, true, 2), E1Job { profile: Profile::S, depth: 2, alt_map: false }, E1Job { profile: Profile::S, depth: 3, alt_map: false }] } else { vec![pf(5), pe(2, true, 2), E1Job { profile: Profile::S, depth: 3, alt_map: false }] },
         "C04x" => vec![],
-        "C18" => if q { vec![pill(4), pc(7), pbs(3), pn(3)] } else { vec![pill(5), pc(9), pb(4), pn(4), pe(1, true, 2)] },
-        "C19" => if q { vec![pa15(3), pb(3), pd(5), pe(1, true, 2), pc(5)] } else { vec![pa(3), pb(4), pd(6), pe(1, true, 2), pc(7), pf(4)] },
-        "C20" => if q { vec![pn(4), pbs(3), pc(6), pd(4), pe(1, false, 2)] } else { vec![pn(5), pb(4), pc(8), pd(6), pe(1, true, 2)] },
+        "C18" => if q { vec![pill(4), pc(7), pbs(3), pn(3), paj(4), pc3(9)] } else { vec![pill(5), pc(9), pc3(10), paj(5), pb(4), pn(4), pe(1, true, 2)] },
+        "C19" => if q { vec![pa15(3), pb(3), pd(5), pe(1, true, 2), pc(5), paj(4)] } else { vec![pa(3), pb(4), pd(6), pe(1, true, 2), pc(7), pf(4), paj(5), paj5(4)] },
+        "C20" => if q { vec![pn(4), pbs(3), pc(6), pd(4), pe(1, false, 2), paj(4)] } else { vec![pn(5), pb(4), pc(8), pd(6), pe(1, true, 2)] },
         _ => vec![],
     };
     let fam_n = match prop {
@@ -473,6 +476,18 @@ pub fn e2_jobs(prop: &str, tier: Tier) -> Vec<E2Job> {
                     .filter(|p| crate::obs::layout_of(p, &crate::hsys::Ctx::identity_map()).map_or(false, |l| l.stages.iter().flatten().any(|g| g.len() >= 2)))
                     .collect();
                 jobs.push(E2Job { label: "plans with groups of 2+ systems (running-time hints 1..3), every single panicking system".into(), scenarios: panic_scen(&grouped, &[Mode::Dispatch, Mode::Seq], false), bounds: b(if q { 1 } else { 2 }), delay: false });
+            }
+            {
+                // two systems panicking in the same dispatch: side by side in one stage, in consecutive stages, inside a batch
+                let sy = |n: &str, w: &[u8], deps: &[&str]| Op::Sys(crate::spec::SysSpec { name: n.into(), reads: vec![], writes: w.to_vec(), time: 3, deps: deps.iter().map(|x| x.to_string()).collect() });
+                let tlop = Op::Tl(crate::spec::SysSpec { name: String::new(), reads: vec![], writes: vec![], time: 3, deps: vec![] });
+                let two: Vec<Vec<Op>> = vec![
+                    vec![sy("a", &[], &[]), sy("b", &[], &[])],
+                    vec![sy("a", &[0], &[]), sy("b", &[1], &[]), sy("c", &[0, 1], &[]), tlop.clone()],
+                    vec![sy("a", &[], &[]), sy("b", &[], &[]), sy("c", &[], &[])],
+                    vec![Op::Batch(crate::spec::BatchSpec { name: "bt".into(), deps: vec![], ctrl: crate::spec::CtrlData::Unit, times: 1, multi: false, fetch_data: false, inner: vec![sy("a", &[0], &[]), sy("b", &[1], &[]), sy("c", &[0], &["a"])] }), sy("z", &[], &[])],
+                ];
+                jobs.push(E2Job { label: "two systems panicking in one dispatch (same stage / consecutive stages / inside a batch), then a clean dispatch".into(), scenarios: panic_scen(&two, &[Mode::Dispatch, Mode::Seq], true), bounds: b(if q { 1 } else { 2 }), delay: false });
             }
             jobs.push(E2Job { label: "thread-local and batch plans, single panicking system (incl. inside batches, thread-local)".into(), scenarios: panic_scen(&[tl(2), eb(1)].concat(), &[Mode::Dispatch, Mode::Seq], !q), bounds: b(if q { 1 } else { 2 }), delay: false });
             if !q {
